@@ -160,6 +160,22 @@ def usable_data(K, data):
 # each returns None or a description of the first failing input
 
 
+def stale_branch_alias(h):
+    """a Branch anywhere in the tree whose i0..i9 accessors are not its current values"""
+    stack = [h]
+    while stack:
+        n = stack.pop()
+        if isinstance(n, hg.Branch):
+            for i, v in enumerate(n.values[:10]):
+                if getattr(n, f"i{i}", None) is not v:
+                    return f"Branch.i{i} is not values[{i}]"
+        try:
+            stack.extend(n.children)
+        except Exception:
+            pass
+    return None
+
+
 def chk_add_view(K):
     for ck in child_kinds(K):
         for d1, d2 in itertools.islice(itertools.product(datasets(), datasets()), 0, 200):
@@ -170,6 +186,8 @@ def chk_add_view(K):
                 return f"{K}[{ck}] + raised {e!r} on compatible operands filled with {d1} / {d2}"
             if not approx_eq(r.toJson(), c.toJson()):
                 return f"{K}[{ck}]: fill({d1}) + fill({d2}) != fill(all): {js(r)} vs {js(c)}"
+            if stale_branch_alias(r):
+                return f"{K}[{ck}]: result of +: {stale_branch_alias(r)}"
     return None
 
 
@@ -182,6 +200,8 @@ def chk_zero_view(K):
                 return f"{K}[{ck}]: zero() is not an identity after fill({d1})"
             if z.entries != 0.0:
                 return f"{K}[{ck}]: zero().entries = {z.entries}"
+            if stale_branch_alias(z):
+                return f"{K}[{ck}]: zero(): {stale_branch_alias(z)}"
     return None
 
 
@@ -258,6 +278,16 @@ def chk_iadd(K, clause):
                     js(a)
                 except Exception as e:
                     return f"{K}[{ck}]: result of += cannot be filled/serialised: {e!r}"
+            if clause == "fill-and-plot-still-bound-to-self":
+                # a.fill must still fill a: the merged object stays live through its own fill method
+                if getattr(a.fill, "__self__", a) is not a and getattr(a.fill, "container", a) is not a:
+                    return f"{K}[{ck}]: after a += b, a.fill is bound to another object"
+                usable = usable_data(K, probe)
+                if usable:
+                    e0 = a.entries
+                    a.fill(usable[0])
+                    if not a.entries > e0:
+                        return f"{K}[{ck}]: after a += b, a.fill(datum) does not change a (entries stay {e0})"
     return None
 
 
@@ -271,6 +301,8 @@ def chk_mul(K, clause, rmul=False):
                     r = (f * a) if rmul else (a * f)
                 except Exception as e:
                     return f"{K}[{ck}] * {f} raised {e!r} (filled with {d1})"
+                if stale_branch_alias(r):
+                    return f"{K}[{ck}] * {f}: {stale_branch_alias(r)}"
                 if clause == "view":
                     if f > 0:
                         want = fill_all(make(K, ck), d1, float(f)).toJson()
@@ -374,6 +406,20 @@ def chk_eq(K, clause, ne=False):
                 return f"{K}[{ck}] ==: raised {e!r}"
             if clause == "complete" and not r:
                 return f"{K}[{ck}]: two aggregators filled identically ({data[:n]}) compare unequal"
+            if clause == "complete":
+                # clones: the pickle clone equals the original, two JSON reloads of one document equal each other
+                import pickle
+
+                try:
+                    c = pickle.loads(pickle.dumps(a))
+                    r1, r2 = hg.Factory.fromJson(a.toJson()), hg.Factory.fromJson(a.toJson())
+                except Exception as e:
+                    return f"{K}[{ck}]: clone of an aggregator filled with {data[:n]} raised {e!r}"
+                for what_, x, y in (("pickle clone", a, c), ("two JSON reloads", r1, r2)):
+                    eq = (not (x != y)) if ne else (x == y)
+                    eq2 = (not (y != x)) if ne else (y == x)
+                    if not (eq and eq2):
+                        return f"{K}[{ck}] filled with {data[:n]}: {what_} compare unequal"
             if clause == "sound":
                 for extra in data:
                     b2 = fill_all(fill_all(make(K, ck), data[:n]), [extra])
@@ -388,6 +434,20 @@ def chk_eq(K, clause, ne=False):
                         continue
                     if js(a) != js(b3) and ((not (a != b3)) if ne else (a == b3)):
                         return f"{K}[{ck}]: structurally different aggregators (alt={alt}) compare equal after {n} data"
+        if clause == "complete" and K == "Stack":
+            # Stack.build glues histograms whose cuts are unknown: every threshold is NaN
+            import pickle
+
+            parts = [fill_all(hg.Bin(3, 0.0, 3.0, qx), data[:n]) for n in (1, 2, 4)]
+            sb = hg.Stack.build(*parts)
+            for what_, x, y in (
+                ("Stack.build vs its pickle clone", sb, pickle.loads(pickle.dumps(sb))),
+                ("two JSON reloads of Stack.build", hg.Factory.fromJson(sb.toJson()), hg.Factory.fromJson(sb.toJson())),
+                ("Stack.build vs its copy", sb, sb.copy()),
+            ):
+                eq = (not (x != y)) if ne else (x == y)
+                if not eq:
+                    return f"Stack (NaN thresholds): {what_} compare unequal"
         if clause == "sound":
             vals = [0.5, 2.0, INF, -INF, NAN, -3.0]
             for s1, s2 in itertools.product(itertools.product(vals, repeat=2), repeat=2):
@@ -555,7 +615,7 @@ def run_clause(K, method, clause):
             return chk_fresh(K, "zero")
         if what == "frame":
             return chk_frame(K, "zero")
-        if what in ("wf", "quantity", "no-raise", "bk"):
+        if what in ("wf", "quantity", "no-raise", "bk", "iN-accessors-alias-values"):
             return chk_zero_view(K)
     if method == "__add__":
         if what == "view" or what == "bk" or what == "quantity":
@@ -564,7 +624,7 @@ def run_clause(K, method, clause):
             return chk_fresh(K, "__add__")
         if what == "frame" and kind == "ensures":
             return chk_frame(K, "__add__")
-        if what == "wf":
+        if what in ("wf", "iN-accessors-alias-values"):
             return chk_add_view(K)
         if kind == "raises" and what == "frame":
             return chk_compat(K, "__add__", "frame")
@@ -577,13 +637,13 @@ def run_clause(K, method, clause):
             return chk_compat(K, "__iadd__", "frame")
         if what.startswith("compatible") or what.startswith("rejects"):
             return chk_compat(K, "__iadd__", what)
-        if what in ("same-object", "view", "wf", "other-unchanged", "no-adoption"):
+        if what in ("same-object", "view", "wf", "other-unchanged", "no-adoption", "fill-and-plot-still-bound-to-self"):
             return chk_iadd(K, what)
         if what in ("bk", "only-if-incompatible"):
             return chk_iadd(K, "view")
     if method in ("__mul__", "__rmul__"):
         rm = method == "__rmul__"
-        if what in ("view", "quantity", "bk", "no-raise"):
+        if what in ("view", "quantity", "bk", "no-raise", "iN-accessors-alias-values"):
             return chk_mul(K, "view", rm)
         if what == "wf":
             return chk_mul(K, "wf", rm)
@@ -668,18 +728,32 @@ def chk_c17(what):
                 got, want = w(*call_args), fd(*call_args)
                 if got != want:
                     return f"cached function called with {call_args} after a longer/shorter call returned {got!r} instead of {want!r}"
-        seqs = [[1, 1, 2, 1, 2, 2], [np.array([1.0, 2.0]), np.array([1.0, 2.0]), np.array([1.0, 3.0]), np.array([1.0, 2.0, 3.0])], ["a", "a", "b"], [1, 1.0, True, 2]]
+        seqs = [
+            [1, 1, 2, 1, 2, 2],
+            [np.array([1.0, 2.0]), np.array([1.0, 2.0]), np.array([1.0, 3.0]), np.array([1.0, 2.0, 3.0])],
+            ["a", "a", "b"],
+            [1, 1.0, True, 2],
+            # shapes that broadcast against each other must not count as the same call
+            [3.0, np.array([3.0, 3.0, 3.0]), np.array([]), 3.0, np.array([3.0])],
+            [np.array([2.0]), np.array([2.0, 2.0, 2.0]), np.array([1.0, 5.0]), np.array([[1.0, 5.0]])],
+        ]
         for wrap in (cached, lambda h: named("n", cached(h)), lambda h: cached(serializable(h)), serializable):
-            for seq in seqs:
+            for seq, order in [(q, o) for q in seqs for o in ("alternate", "plain", "kw")]:
                 w = wrap(f)
-                for x in seq:
-                    for kw in ({}, {"k": 1}):
+                steps = [(x, kw) for x in seq for kw in ({}, {"k": 1})] if order == "alternate" else [(x, {} if order == "plain" else {"k": 1}) for x in seq]
+                for x, kw in steps:
+                    if True:
                         try:
                             got = w(x, **kw)
                         except Exception as e:
                             return f"wrapped call raised {e!r} at argument {x!r} kw={kw} in sequence {seq!r}"
                         want = f(x, **kw)
-                        same = np.array_equal(got, want) if isinstance(want, np.ndarray) else got == want
+                        if isinstance(want, np.ndarray):
+                            same = isinstance(got, np.ndarray) and got.shape == want.shape and np.array_equal(got, want)
+                        elif isinstance(want, tuple) and isinstance(want[0], np.ndarray):
+                            same = isinstance(got, tuple) and isinstance(got[0], np.ndarray) and got[0].shape == want[0].shape and np.array_equal(got[0], want[0]) and got[1:] == want[1:]
+                        else:
+                            same = got == want
                         if not same:
                             return f"wrapped call returned {got!r} instead of {want!r} at {x!r} kw={kw} in sequence {seq!r}"
         # a function that raises on some arguments: the wrapper raises exactly when the function does, and a
@@ -759,6 +833,37 @@ def chk_c17(what):
             for v in vals:
                 if w(v) != fn(v):
                     return f"string expression {s!r} on bare scalar {v} gives {w(v)!r}"
+        # one wrapper object, a history of records of different kinds: an evaluation sees only its own record
+        w = serializable("x * 2")
+        for rec, want in (({"x": 3.0}, 6.0), (5.0, 10.0), (Rec(4.0, 0.0), 8.0), (7.0, 14.0), ({"x": -1.0, "y": 9.0}, -2.0), (2.5, 5.0)):
+            try:
+                got = w(rec)
+            except Exception as e:
+                return f"string expression 'x * 2' raised {e!r} on {rec!r} after a history of other records"
+            if got != want:
+                return f"string expression 'x * 2' on {rec!r} after a history of other records gives {got!r} instead of {want!r}"
+        w = serializable("x + y")
+        for rec, want in (({"x": 1.0, "y": 2.0}, 3.0), ({"x": 1.0}, "raises"), (Rec(2.0, 5.0), 7.0), ({"y": 1.0}, "raises"), ({"x": 4.0, "y": 4.0}, 8.0)):
+            try:
+                got = w(rec)
+            except Exception:
+                got = "raises"
+            if got != want:
+                return f"string expression 'x + y' on {rec!r} after a history of other records gives {got!r}, the equivalent function gives {want!r}"
+        for mk in (lambda q: hg.Sum(q), lambda q: hg.Bin(4, -2.0, 3.0, q)):
+            a, b = mk("x * 2"), mk(lambda d: (d["x"] if isinstance(d, dict) else d) * 2)
+            for rec in ({"x": 1.0}, 0.75, {"x": -0.5}, 1.25):
+                a.fill(rec)
+                b.fill(rec)
+            c = a.zero()  # shares the quantity object
+            c.fill(0.25)
+            d_ = b.zero()
+            d_.fill(0.25)
+            for u, v in ((a, b), (c, d_)):
+                ju, jv = u.toJson()["data"], v.toJson()["data"]
+                ju.pop("name", None), jv.pop("name", None)
+                if not approx_eq(ju, jv):
+                    return f"aggregator with the string quantity 'x * 2' differs from the function one after a mixed dict / scalar history: {ju} vs {jv}"
     return None
 
 
@@ -1362,4 +1467,79 @@ def chk_numpy(K, skip=(), only_kids=None, exclude_kids=()):
                     ja, jb = strip_empty_bins(a.toJson()["data"]), strip_empty_bins(b.toJson()["data"])
                     if not approx_eq(ja, jb, 1e-9):
                         return f"{K}[{ck}] fill.numpy != per-row fill for rows {rows} weights={wv} split={split}: {json.dumps(ja, sort_keys=True)[:260]} vs {json.dumps(jb, sort_keys=True)[:260]}"
+    return None
+
+
+# --------------------------------------------------------------------------- Bag with vector ranges (N2, N3)
+
+
+def chk_bag_vector(what):
+    """Bag(range "N2"/"N3"): the value -> weight map with NaN components canonicalised (every NaN is the same key),
+    merge, equality (any key / weight difference makes unequal; clones equal) -- bounded: vectors over
+    {0.5, -1.0, nan (distinct float objects), inf} of length 2 and 3, sequences of up to 3 fills"""
+    import pickle
+
+    def nan():
+        return float("nan") * 1.0  # a fresh NaN object every time
+
+    def mkvals():
+        return [0.5, -1.0, nan(), INF]
+
+    def qv(d):
+        return d
+
+    for dim in (2, 3):
+        rng = f"N{dim}"
+        vecs = [tuple(v) for v in itertools.product(range(4), repeat=dim)][:: (1 if dim == 2 else 5)]
+
+        def vec(idx):
+            vals = mkvals()
+            return tuple(vals[i] if i != 2 else nan() for i in idx)
+
+        seqs = [[a] for a in vecs] + [[a, b] for a in vecs for b in vecs][::3] + [[a, b, a] for a in vecs[:6] for b in vecs[:6]]
+        for seq in seqs:
+            h = hg.Bag(qv, rng)
+            for k, idx in enumerate(seq):
+                h.fill(vec(idx), 1.0 + k)
+            if what == "fill":
+                # the map has one key per distinct vector (NaN == NaN), weights add, entries is the total
+                want = {}
+                for k, idx in enumerate(seq):
+                    want[idx] = want.get(idx, 0.0) + 1.0 + k
+                if len(h.values) != len(want):
+                    return f"Bag {rng} filled with index vectors {seq} (2 = NaN) holds {len(h.values)} keys, {len(want)} distinct vectors were filled: {h.values}"
+                if abs(sum(h.values.values()) - h.entries) > 1e-12 or abs(h.entries - sum(want.values())) > 1e-12:
+                    return f"Bag {rng} filled with {seq}: weights {h.values} do not add up to entries {h.entries}"
+                if sorted(h.values.values()) != sorted(want.values()):
+                    return f"Bag {rng} filled with {seq}: weights {sorted(h.values.values())}, expected {sorted(want.values())}"
+                r = hg.Factory.fromJson(h.toJson())
+                if abs(sum(r.values.values()) - h.entries) > 1e-12 or len(r.values) != len(want):
+                    return f"Bag {rng} filled with {seq}: the JSON round trip loses weight or keys: {r.values}"
+                rev = hg.Bag(qv, rng)
+                for k, idx in reversed(list(enumerate(seq))):
+                    rev.fill(vec(idx), 1.0 + k)
+                if js(rev) != js(h):
+                    return f"Bag {rng}: content depends on the fill order for {seq}"
+            else:
+                for name, c in (("copy", h.copy()), ("pickle clone", pickle.loads(pickle.dumps(h))), ("refill", None)):
+                    if c is None:
+                        c = hg.Bag(qv, rng)
+                        for k, idx in enumerate(seq):
+                            c.fill(vec(idx), 1.0 + k)
+                    if not (h == c and c == h) or (h != c):
+                        return f"Bag {rng} filled with {seq} is not equal to its {name}"
+                # one component changed in one key: unequal
+                for pos in range(dim):
+                    for repl in range(4):
+                        idx0 = seq[0]
+                        if idx0[pos] == repl:
+                            continue
+                        idx1 = idx0[:pos] + (repl,) + idx0[pos + 1 :]
+                        if idx1 in seq:
+                            continue
+                        o = hg.Bag(qv, rng)
+                        for k, idx in enumerate(seq):
+                            o.fill(vec(idx1 if (k == 0) else idx), 1.0 + k)
+                        if len(o.values) == len(h.values) and (h == o or o == h or not (h != o)):
+                            return f"Bag {rng}: key {idx0} vs {idx1} (index 2 = NaN, 3 = inf) compare equal (other fills {seq[1:]})"
     return None
